@@ -88,10 +88,20 @@ class Indentation(afmformats.AFMForceDistance):
             self._rating = None
             # Apply preprocessing
             # (This will call `AFMData.reset_data` on self)
-            details = preproc.apply(apret=self,
-                                    identifiers=preprocessing,
-                                    options=options,
-                                    ret_details=ret_details)
+            try:
+                details = preproc.apply(apret=self,
+                                        identifiers=preprocessing,
+                                        options=options,
+                                        ret_details=ret_details)
+            except BaseException:
+                # The request was rejected. Do not remember it as applied
+                # (otherwise repeating it would be silently accepted) and
+                # do not leave partially preprocessed data behind.
+                fp.pop("preprocessing", None)
+                fp.pop("preprocessing_options", None)
+                self.reset_data()
+                self._preprocessing_details = {}
+                raise
             self._preprocessing_details = details
             # Check availability of axes
             for ax in ["x_axis", "y_axis"]:
